@@ -2,7 +2,7 @@
    Only statements here; each is closed by `exact <lemma>` from proofs/P_affine.v, P_rotation.v. *)
 From Coq Require Import ZArith Reals List Bool.
 From PW Require Import Num NumR Vec Mat NpList Result.
-From PW.model Require Import M_rodrigues M_affine M_rotation.
+From PW.model Require Import M_rodrigues M_affine M_rotation M_affine_spec.
 From PW.proofs Require Import P_affine P_rotation.
 Import ListNotations.
 Local Open Scope R_scope.
